@@ -359,8 +359,16 @@ def range_sizes(body):
             for i, c in enumerate(n.get("body", [])):
                 rec(c, [(n, i)] + chain)
             return
-        if k == "RangeFor":
-            cont = show(n["range"])
+        algo_range = None
+        if k == "Call" and n.get("ext") and n.get("short") in ("for_each", "transform", "any_of", "all_of", "none_of", "find_if",
+                                                                "count_if", "copy_if", "remove_if") and n.get("args"):
+            f0 = n["args"][0]
+            while is_node(f0) and f0["k"] == "Cast":
+                f0 = f0["e"]
+            if is_node(f0) and f0["k"] == "Call" and f0.get("short") in ("begin", "cbegin") and is_node(f0.get("recv")):
+                algo_range = f0["recv"]  # std::for_each(c.begin(), c.end(), f) repeats like `for (x : c)`
+        if k == "RangeFor" or algo_range is not None:
+            cont = show(n["range"] if k == "RangeFor" else algo_range)
             found = None
             for comp, idx in chain:
                 for j in range(idx - 1, -1, -1):
